@@ -194,10 +194,23 @@ def gen_run_case(rng, algo, single=False):
 
 
 # ------------------------------------------------------------------ implementation side
+_TOKEN = {"pipe": None}
+
+
+def own_cal(log):
+    """the probe's records written through the pipeline built last (its `_token` argument): worker threads of an
+    earlier, e.g. failed, calibration may still be evaluating and logging while the next case runs"""
+    needle = '"_token":"%s"' % _TOKEN["pipe"]
+    return [r for r in log if r[0] == "cal" and needle in r[1]]
+
+
 def _pipeline(vs):
+    import uuid
+
     import pyx
 
-    args = {}
+    _TOKEN["pipe"] = uuid.uuid4().hex
+    args = {"_token": _TOKEN["pipe"]}
     for v in vs:
         if v.get("det"):
             continue
@@ -371,7 +384,7 @@ def _eval_x(prob, vs, x):
         ev["updated"] = upd
         probes.reset()
         f = prob.fitness(np.array(x))
-        calls = [r for r in probes.LOG if r[0] == "cal"]
+        calls = own_cal(list(probes.LOG))
         ev["n_calls"] = len(calls)
         ev["applied"] = _assigned_from_kwargs(vs, json.loads(calls[-1][1])) if calls else None
         ev["fitness_len"] = len(f)
@@ -417,7 +430,7 @@ def _one_calibration(case, cal, tmp):
         dt = pyxel.run_mode(cal, det, pipe)
     except Exception as e:  # noqa: BLE001
         return {"error": common.err_kind(e), "msg": str(e)[:300]}
-    evals = [_assigned_from_kwargs(vs, json.loads(r[1])) for r in list(probes.LOG) if r[0] == "cal"]
+    evals = [_assigned_from_kwargs(vs, json.loads(r[1])) for r in own_cal(list(probes.LOG))]
     out = {"n_evals": len(evals), "evals": evals}
     ch = dt["/champion"]
     out["champion_decision"] = np.asarray(ch["decision"].values, dtype=float).reshape(-1, ch["decision"].shape[-1]).tolist()
@@ -433,7 +446,7 @@ def _one_calibration(case, cal, tmp):
     for x in out["champion_decision"]:
         probes.reset()
         prob.fitness(np.array(x))
-        calls = [r for r in probes.LOG if r[0] == "cal"]
+        calls = own_cal(list(probes.LOG))
         re.append(_assigned_from_kwargs(vs, json.loads(calls[-1][1])))
     out["champion_reapplied"] = re
     return out
@@ -729,7 +742,7 @@ def body(ck: common.Check):
             vs = []
             for j, kind in enumerate(pattern):
                 v = gen_var(rng, j, exact=True)
-                while (isinstance(v["values"], list)) != (kind == "v") or v["log"] != (j == logpos):
+                while (isinstance(v["values"], list)) != (kind == "v") or v["log"] != (j == logpos) or v.get("det"):
                     v = gen_var(rng, j, exact=True)
                 vs.append(v)
             cases.append({"stream": "exact", "vars": vs, "xs": [gen_x(rng, vs, True) for _ in range(2)]})
